@@ -153,4 +153,36 @@ theorem bindings_deep_copied :
 theorem specter_atomic :
     seq "UpdatableSpec.Spec" = ["LoadPointer"] ∧ seq "UpdatableSpec.SetSpec" = ["StorePointer"] := by decide
 
+/-! ## cmd/mcrew/service.go (C16), both timer services (C17), sio/crew.go (C14) -/
+
+/-- C16: `Process`, `AddMachine` and `RemMachine` each take the crew lock once, hold it to the end
+    (deferred unlock) and write to storage inside it … -/
+theorem mcrew_write_under_lock :
+    seq "Service.AddMachine" = ["Lock", "defer Unlock", "WriteState"] ∧
+    seq "Service.RemMachine" = ["Lock", "defer Unlock", "WriteState"] ∧
+    seq "Service.Process" = ["Route", "Lock", "defer Unlock", "GetSpec", "Walk", "WriteState", "go Process"] := by decide
+
+/-- C16: … and change the in-memory crew only after the write. -/
+theorem mcrew_write_before_memory :
+    seq "Service.AddMachine.order" = ["write", "mem:c.Machines[id]"] ∧
+    seq "Service.RemMachine.order" = ["write", "mem:delete"] ∧
+    seq "Service.Process.order" = ["write", "mem:c.Machines[mid].State"] := by decide
+
+/-- C14: each emitted message spawns one `Process` (mcrew); the sio crew appends emitted messages to
+    the end of the queue and pops from the front; ordinary routing skips the two service machines. -/
+theorem routing_sites :
+    stmt "Crew.ProcessMsg.pending" =
+      ["make([]interface{}, 0, 32)", "append(pending, msg)", "pending[1:]", "append(pending, msg)"] ∧
+    stmt "Crew.allMachines.case" = ["TimersMachine", "CaptainMachine"] := by decide
+
+/-- C17: a firing timer decides under the lock, by entry identity, whether it still stands, and
+    frees its id before emitting (both implementations); sio's `add` on a pending id cancels it and
+    goes on to create the new timer. -/
+theorem timers_fire_by_identity :
+    (stmt "mcrew.Timers.fire.guard").contains "!have || current != te" = true ∧
+    stmt "sio.TimerEntry.fire.guard" = ["!have || current != te"] ∧
+    seq "mcrew.Timers.Add" = ["Lock", "defer Unlock", "Rem", "NewTimer", "Lock", "Unlock", "delete", "Unlock", "emit"] ∧
+    seq "sio.TimerEntry.run" = ["Lock", "Unlock", "delete", "Unlock", "Emitter", "Lock", "changed", "Unlock"] ∧
+    seq "sio.Timers.add" = ["cancel", "changed", "go run"] := by decide
+
 end FactsOK
